@@ -17,6 +17,7 @@ import (
 	commonmodel "github.com/prometheus/common/model"
 
 	"github.com/prometheus/alertmanager/alert"
+	"github.com/prometheus/alertmanager/config"
 	amcommoncfg "github.com/prometheus/alertmanager/config/common"
 	"github.com/prometheus/alertmanager/eventrecorder"
 	"github.com/prometheus/alertmanager/featurecontrol"
@@ -27,6 +28,7 @@ import (
 
 	"verif/harness/gen"
 	"verif/harness/model"
+	"verif/harness/scen"
 	"verif/harness/vf"
 )
 
@@ -82,6 +84,7 @@ func genRules(r *rand.Rand) []model.InhibitRule {
 		if r.Intn(2) == 0 {
 			rule.Name = gen.Pick(r, []string{"same", "same", "other"}) // names are optional and need not be unique
 		}
+		rule.Legacy = r.Intn(3) == 0
 		rules = append(rules, rule)
 	}
 	return rules
@@ -131,10 +134,16 @@ func newWorld(rules []model.InhibitRule, gcInterval time.Duration) *world {
 	if err != nil {
 		panic(err)
 	}
-	var crs []amcommoncfg.InhibitRule
+	// the rules go through the configuration file, as a user's do (deprecated map forms included)
+	y := "route: {receiver: r}\nreceivers: [{name: r}]\ninhibit_rules:\n"
 	for _, ru := range rules {
-		crs = append(crs, amcommoncfg.InhibitRule{Name: ru.Name, SourceMatchers: realMatchers(ru.Source), TargetMatchers: realMatchers(ru.Target), Equal: ru.Equal})
+		y += scen.InhibitRuleYAML(ru)
 	}
+	cfg, err := config.Load(y)
+	if err != nil {
+		panic("generated inhibit rules rejected: " + err.Error() + "\n" + y)
+	}
+	crs := cfg.InhibitRules
 	inh := inhibit.NewInhibitor(alerts, crs, logger, eventrecorder.NopRecorder())
 	go inh.Run()
 	inh.WaitForLoading()
